@@ -102,6 +102,11 @@ func doFault(sys *Sys, kind string, extraHdr [][2]string) faultResult {
 	case "stall":
 		// headers and a first piece of the body, then silence for as long as the connection lasts
 		sc = vh.Script{Status: 200, Framing: "chunked", Steps: []vh.Step{{Op: "write", N: 100}, {Op: "flush"}, {Op: "hang"}}}
+	case "stall-up":
+		// the same against a chunked upload that announces a trailer
+		sc = vh.Script{Status: 200, Framing: "chunked", Steps: []vh.Step{{Op: "write", N: 100}, {Op: "flush"}, {Op: "hang"}}}
+		rq.Chunked, rq.ChunkSize = true, 16
+		rq.Trailers = [][2]string{{"X-Checksum", "abc"}}
 	case "holdtrial":
 		sc = vh.Script{Status: 200, Steps: []vh.Step{{Op: "hold", Key: "trial"}, {Op: "write", N: 10}}}
 	case "cup":
